@@ -140,7 +140,21 @@ impl Rz {
         }
     }
 
+    /// Luau resolves names while it parses: the annotations of the signature are read before the parameters (and the
+    /// name of a `local function`) are declared, so they see the names of the code around the function.
     fn func(&mut self, f: &FuncBody) {
+        self.func_named(f, None);
+    }
+
+    fn func_named(&mut self, f: &FuncBody, local_name: Option<(&str, usize)>) {
+        for p in &f.params {
+            self.ty_opt(&p.ty);
+        }
+        self.ty_opt(&f.vararg_type);
+        self.ty_opt(&f.ret);
+        if let Some((name, pos)) = local_name {
+            self.declare(name, Some(pos));
+        }
         self.push();
         if f.has_self {
             self.declare("self", None);
@@ -148,11 +162,6 @@ impl Rz {
         for p in &f.params {
             self.declare(&p.name, Some(p.pos));
         }
-        for p in &f.params {
-            self.ty_opt(&p.ty);
-        }
-        self.ty_opt(&f.vararg_type);
-        self.ty_opt(&f.ret);
         self.block(&f.body);
         self.pop();
     }
@@ -240,8 +249,7 @@ impl Rz {
                 self.func(body);
             }
             Stat::LocalFunction { name, pos, body, .. } => {
-                self.declare(name, Some(*pos));
-                self.func(body);
+                self.func_named(body, Some((name, *pos)));
             }
             Stat::Return(exprs) => {
                 for e in exprs {
@@ -255,7 +263,13 @@ impl Rz {
                 }
                 self.ty(ty);
             }
-            Stat::TypeFunction { .. } => {}
+            Stat::TypeFunction { body, .. } => {
+                // a type function runs in an environment of its own: it sees its parameters and locals, never the
+                // locals of the code around it
+                let saved = std::mem::take(&mut self.scopes);
+                self.func(body);
+                self.scopes = saved;
+            }
         }
     }
 
